@@ -19,7 +19,7 @@ CLAUSES = {
 BOUNDS = {"quick": "Nsteps 1..4, output period 1..3, one late release at any step, one symbolic IBM kill, plug-ins given by path, cold start",
           "thorough": "Nsteps 1..8, period 1..4; plus real NetCDF output module; plug-in by bare module name with decoy"}
 ASSUMES = ["constant symbolic velocity, interior positions"]
-OUTSIDE = "warm start catch-up step (C08)"
+OUTSIDE = "how many steps a warm-started run takes (C08); whether the catch-up step of a warm start offers its record to the output module"
 DT = 600
 
 DECOY = '''
@@ -37,6 +37,7 @@ def scenarios(tier):
     q = tier == "quick"
     out = [dict(name="protocol", fn="run", params=dict(nmax=4 if q else 8, pmax=3 if q else 4, out="plugin"), cost=10),
            dict(name="protocol-netcdf", fn="run", params=dict(nmax=3 if q else 6, pmax=2 if q else 3, out="netcdf"), cost=10),
+           dict(name="warm-start", fn="warm", params=dict(nmax=3 if q else 6, pmax=2 if q else 3), cost=10),
            dict(name="precedence", fn="precedence", params={}, cost=1)]
     return out
 
@@ -141,6 +142,83 @@ def run(W, p):
             ok = ok and got == exp
         W.prove(ok, "kill-next-record", dict(N=N, P=P, killstep=kstep))
     return (N, P, r1, kstep)
+
+
+def warm(W, p):
+    """protocol after a warm start: catch-up step 0 (release, forcing, [output], tracker, ibm) then ordinary steps"""
+    tmp = W.scratch()
+    (tmp / "A").mkdir()
+    x0 = W.real("x0", 6, 14)
+    u = W.real("u", -W.frac(1, 100), W.frac(1, 100))
+    W.table(tmp / "r.rls", ["release_time", "X", "Y", "Z"], [[W.dt(T0), x0, 10, 5], [W.dt(T0 + DT), x0 + 1, 11, 5]])
+    ivars = dict(pid=ovar("i4"), X=ovar("f8"), Y=ovar("f8"), Z=ovar("f8"))
+    cfgA = base_config(W, start=T0, stop=T0 + 2 * DT, dt=DT, release_file=tmp / "r.rls", u=u,
+                       output=dict(filename=str(tmp / "A" / "out.nc"), output_period=DT, instance_variables=ivars))
+    run_main(W, cfgA)
+    N = W.idx(W.int("Nsteps", 1, p["nmax"]))
+    P = W.idx(W.int("period", 1, p["pmax"]))
+    log = []
+    cfg = base_config(W, start=T0, stop=T0 + (1 + N) * DT, dt=DT, release_file=tmp / "r.rls", u=u, grid=dict(log=log), ibm=dict(log=log),
+                      output=dict(module=str(PLUG / "pout.py"), output_period=P * DT, log=log), warm_start=dict(filename=str(tmp / "A" / "out.nc")))
+    cfg["forcing"]["log"] = log
+    cfg["forcing"]["filename"] = str(tmp / "unused.nc")
+    cfg["grid"]["filename"] = str(tmp / "unused.nc")
+    W.load("ladim.configure").configure_v2(cfg)
+
+    def hook(model):
+        for name in ("release", "tracker"):
+            mod = getattr(model, name)
+            orig = mod.update
+
+            def wrapped(orig=orig, name=name, model=model):
+                st = model.state
+                log.append((name + "-call", model.timer.step, list(st.pid), list(st.X), list(st.alive)))
+                return orig()
+
+            mod.update = wrapped
+
+    # the catch-up step happens inside Model.__init__, before the hook could wrap: wrap at class level for this run
+    model_mod = W.load("ladim.model")
+    relmod, trkmod = W.load("ladim.release"), W.load("ladim.tracker")
+    ro, to = relmod.ParticleReleaser.update, trkmod.Tracker.update
+
+    def rwrap(self):
+        st = self.modules["state"]
+        log.append(("release-call", self.modules["time"].step, list(st.pid), list(st.X), list(st.alive)))
+        return ro(self)
+
+    def twrap(self):
+        st = self.modules["state"]
+        log.append(("tracker-call", self.modules["time"].step, list(st.pid), list(st.X), list(st.alive)))
+        return to(self)
+
+    relmod.ParticleReleaser.update, trkmod.Tracker.update = rwrap, twrap
+    try:
+        run_main(W, cfg)
+    finally:
+        relmod.ParticleReleaser.update, trkmod.Tracker.update = ro, to
+    events = [e for e in log if e[0] != "close"]
+    steps = sorted({e[1] for e in events})
+    ok = steps == list(range(len(steps))) and len(steps) >= 1
+    detail = []
+    for s_ in steps:
+        names = [e[0] for e in events if e[1] == s_]
+        due = s_ % P == 0
+        allowed = [["release-call", "forcing", "output", "tracker-call", "ibm"]] if (due and s_ > 0) else [["release-call", "forcing", "tracker-call", "ibm"]]
+        if s_ == 0:
+            allowed = [["release-call", "forcing", "tracker-call", "ibm"], ["release-call", "forcing", "output", "tracker-call", "ibm"]]
+        if names not in allowed:
+            ok = False
+            detail.append((s_, names))
+    # events must also be grouped by step in order
+    ok = ok and [e[1] for e in events] == sorted(e[1] for e in events)
+    W.prove(ok, "order", dict(start="warm", N=N, P=P, wrong=detail[:4], steps=steps))
+    # the warm-started state holds both particles of the restart file and the forcing sees them at step 0
+    f0 = [e for e in events if e[0] == "forcing" and e[1] == 0]
+    W.prove(len(f0) == 1 and [int(q) for q in f0[0][2]] == [0, 1], "forcing-sees-new", dict(start="warm", pids=[int(q) for q in f0[0][2]] if f0 else None))
+    closes = [e[1] for e in log if e[0] == "close"]
+    W.prove(sorted(closes) == ["forcing", "grid", "ibm", "output"], "close-once", dict(start="warm", closes=closes))
+    return ("warm", N, P, len(steps))
 
 
 def precedence(W, p):
